@@ -22,6 +22,150 @@ CLAIMS = {
         technique="CFG reaching-definitions / dominators / knob-consistent path search "
                   "+ effect summaries over solver source",
     ),
+    "C03": dict(
+        text="Decides the structural descent mechanisms: every bulk overwrite of the "
+             "iterate (acceptance of an Anderson-extrapolated point) is dominated by the "
+             "true branch of a strict comparison obj(acc) < obj(cur) whose two operands are "
+             "the same objective term under {w->w_acc, Xw->Xw_acc}, contain penalty and "
+             "datafit values, are fresh, exclude the intercept from the penalty, and both "
+             "halves of the (w, Xw) pair are stored together; every prox call site is the "
+             "prox-gradient step with one step size 1/L_k indexed at the coordinate it reads "
+             "and writes; the three backtracking line searches follow one template. Does not "
+             "decide monotonicity of the numerical objective.",
+        design_ref="DESIGN.md §3.1 R-GUARD/R-STEP/R-LS, §4 C03",
+        note="Assumes prox exactness and validity of L_k (C07/C09). Backtracking "
+             "exhaustion fallback (`else: pass`) is reported as a note.",
+        technique="dominator / reaching-definition queries on the solver CFGs, AST term "
+                  "comparison under substitution",
+    ),
+    "C04": dict(
+        text="Decides that feasibility is preserved by construction at every stopping "
+             "point: every in-place store into the coefficient array in solver code is a "
+             "prox output, a guarded acceptance, a line-search combination or the intercept "
+             "slot; every penalty whose prox enforces a constraint returns +inf from value() "
+             "on infeasible points (so the acceptance guard can reject them); the positive "
+             "flag reaches every prox helper and every score. Does not decide finiteness "
+             "under overflow.",
+        design_ref="DESIGN.md §3.6 R-INF/R-POS/R-WRITE, §4 C04",
+        note="Order-region evaluation of the projection helpers (R-REGION) is part of the "
+             "algebraic tier (C07).",
+        technique="who-may-write classification of stores + effect/role analysis + "
+                  "registry cross-check of sibling penalties",
+    ),
+    "C05": dict(
+        text="Decides the structural clauses of warm starts and paths: the optional "
+             "(w_init, Xw_init) idiom is self-consistent; every element store into the "
+             "iterate is followed by the (new - old) * column update of its accumulator "
+             "(model fit, Gram gradient, X@delta buffer); in every path loop alpha is set "
+             "from the grid before solve, warm starts taken from the result matrix are "
+             "copies, and every model fit handed to solve is zeros-with-zero-start, the "
+             "in-place buffer or the template X @ w[:p] + fit_intercept * w[-1]; _glm_fit's "
+             "warm start follows the same template and reads fitted state only under "
+             "warm_start; no solver object is cached across calls.",
+        design_ref="DESIGN.md §3.1 R-NONE/R-PAIR, §4 C05",
+        note="That a warm-started run meets the certificate numerically is C01's undecided part.",
+        technique="AST/CFG pattern rules with reaching definitions and effect summaries",
+    ),
+    "C10": dict(
+        text="Decides the structural part of storage independence: CSC triples are passed "
+             "as (data, indptr, indices) at all call sites (role provenance); every "
+             "sparse/dense dispatch calls a sibling pair with corresponding arguments; every "
+             "input validation converts to CSC (no other sparse format reaches a kernel); "
+             "float32 flag plumbing is under C11; solver objects store no state. Equality of "
+             "converged results is not decided.",
+        design_ref="DESIGN.md §3.2 R-CSC, §4 C10",
+        note="Kernel-level dense/sparse agreement of formulas is decided under C06 (datafit "
+             "accessors).",
+        technique="provenance roles through call bindings + sibling cross-check",
+    ),
+    "C11": dict(
+        text="Decides constructor-argument plumbing for the 12 estimators: every __init__ "
+             "parameter is read on the fit path (and on path() for parameters fit forwards); "
+             "a bare self.p handed to a repo constructor binds the formal of the same name or "
+             "a reviewed alias; every repo constructor called in fit/path that has a formal "
+             "named like an estimator parameter receives self.<parameter>; datafit clones with "
+             "float fields pass the float32 flag; every fit ends in _glm_fit/solver.solve; "
+             "None-default arguments are not dereferenced unguarded. Does not decide "
+             "stationarity (C01) nor docstring formulas.",
+        design_ref="DESIGN.md §3.3 R-PLUMB, §4 C11",
+        note="Alias table (max_epochs->max_pn_iter, C->alpha) is reviewed by hand.",
+        technique="data-flow of self.<param> into resolved constructor bindings",
+    ),
+    "C12": dict(
+        text="Decides only the assembly clauses: in the multiclass branch every fitted "
+             "attribute the binary branch derives from the solver (coef_, intercept_, "
+             "dual_coef_) is gathered from the per-class binary estimators; label-encoded "
+             "targets are never compared with raw class labels and the +/-1 mapping is "
+             "arithmetic on the encoded indices. Probability normalisation and monotonicity "
+             "are runtime behaviour of sklearn mix-ins and are not decided.",
+        design_ref="DESIGN.md §3.3 R-OVR, §4 C12",
+        note="Structural necessary conditions only.",
+        technique="AST rules on _glm_fit (last-assignment and kind-of-value checks)",
+    ),
+    "C13": dict(
+        text="Decides, exhaustively over the finite composition matrix (12 426 cells: 9 "
+             "solvers x 13 datafits(+None) x 19 penalties x {dense, CSC} x knob valuations), "
+             "that each cell is either refused by a static evaluation of BaseSolver._validate "
+             "(which check, which error kind) or accepted with every datafit/penalty member "
+             "touched by code reachable from _solve resolving to a real member of matching "
+             "arity (compiled code) or failing with an AttributeError that names the method "
+             "(interpreter level); every self.<attr> of a jitclass is in its spec and lazy "
+             "attributes are initialised for the storage mode; no local can be unbound at a "
+             "use on a knob-consistent path. Does not decide numerical outcomes of accepted "
+             "cells; extent (shape) agreement is under C20.",
+        design_ref="DESIGN.md §3.2 R-REQ/R-SLOT/R-SPEC/R-MATRIX, §4 C13",
+        note="check_attrs semantics (hasattr(obj, name+suffix)) is re-verified against "
+             "validation.py on every run.",
+        technique="abstract evaluation of the validation code per cell + call-graph slot "
+                  "resolution with knob-pruned CFGs",
+    ),
+    "C16": dict(
+        text="Decides two structural clauses: alpha_max helpers exclude zero weights "
+             "before dividing (guarded division), and every solver that fits an intercept "
+             "includes |intercept gradient| in its tolerance test, so it cannot exit at w=0 "
+             "with a non-optimal intercept. The value of alpha_max relative to the penalty's "
+             "kink threshold is decided in the algebraic tier when available.",
+        design_ref="DESIGN.md §3.5 R-THR, §4 C16",
+        note="That a fit slightly below alpha_max is non-zero is numerical.",
+        technique="guarded-division dominator rule + certificate slice rule",
+    ),
+    "C17": dict(
+        text="Decides that the returned diagnostics are well-formed on every path: the "
+             "history gets exactly one entry per completed outer iteration (no padding), the "
+             "entry is bound, computed after the last mutation of the iteration, is datafit "
+             "value + penalty value with the intercept excluded from the penalty; the "
+             "returned stopping value is the one tested; it is bound with a zero budget; "
+             "n_iter_ = len(history).",
+        design_ref="DESIGN.md §3.1 R-HIST, §4 C17",
+        note="Numerical equality of each entry with the true objective is not decided.",
+        technique="CFG path rules (must-pass-through, reaching definitions, freshness)",
+    ),
+    "C18": dict(
+        text="Decides purity structurally: interprocedural effect summaries (with slot "
+             "dispatch over all registered datafits/penalties) show no in-place mutation of "
+             "parameters bound to X, y, the CSC arrays or group structure in any of the ~300 "
+             "functions reachable from fit/path/solve; jitclass methods store into self "
+             "arrays only in initialize*; estimators never rebind constructor attributes, "
+             "read fitted state only under warm_start; no globals/module containers; the only "
+             "cache is the class factory keyed by all its parameters; compiled_clone returns "
+             "a fresh instance; solver objects are immutable after construction.",
+        design_ref="DESIGN.md §3.3 R-STATE/R-PURE, §4 C18",
+        note="Equality of results across fit histories follows from purity plus kernel "
+             "determinism; the RNG draw in spectral_norm is reported as a note.",
+        technique="effect (mutation) analysis over the resolved call graph + typestate of "
+                  "estimator attributes",
+    ),
+    "C19": dict(
+        text="Decides that every division in solver code whose denominator derives from the "
+             "data (Lipschitz constants, norms, Gram diagonal) is dominated by a non-zero "
+             "fact (or is a tabled exemption with a reason), and that every loop is bounded "
+             "(for over ranges/arrays; the two while loops have recorded variants). "
+             "Finiteness under overflow is not decided.",
+        design_ref="DESIGN.md §3.1 R-DIV/R-LOOP, §4 C19",
+        note="numpy-level divisions (inf, no exception) at interpreter level are accepted "
+             "unless the denominator is a Python float returned by a jitclass method.",
+        technique="provenance classification of denominators + dominating-guard query",
+    ),
 }
 
 _PENDING = "check not yet built in this revision of the framework (work in progress)"
